@@ -1,6 +1,6 @@
 (* C05 -- With no covariates the model is uniform swing by the weighted median. *)
 From Coq Require Import ZArith QArith Qminmax List Bool.
-From Elex Require Import Base.QRound Base.Loss Model.Floor Model.Conformal Proofs.ConformalProofs.
+From Elex Require Import Base.QRound Base.Loss Model.Floor Model.Conformal Model.Estimandizer Proofs.ConformalProofs Proofs.EstimandizerProofs.
 Import ListNotations.
 Open Scope Q_scope.
 
@@ -28,3 +28,15 @@ Example C05_example :
   let l : list obs := [(101, 1 # 10); (51, -(2 # 10)); (201, 3 # 100); (31, 4 # 10)] in
   find_wmedian l = Some (3 # 100) /\ swing_pred (3 # 100) 1001 400 = 1031%Z /\ swing_pred (3 # 100) 101 400 = 400%Z.
 Proof. vm_compute. auto. Qed.
+
+(* "baseline = previous result + 1": the denominator of the relative change is positive for every non-negative previous result, the
+   residual is the relative change, and scaling the baseline by (1 + residual) gives the count back -- which is why a common factor
+   1 + m applied to baseline + 1 is a uniform swing *)
+Theorem C05_baseline_plus_one : forall results baseline : Q, 0 <= baseline ->
+  0 < last_election baseline /\ residual results baseline * last_election baseline == results - last_election baseline
+  /\ (1 + residual results baseline) * last_election baseline == results.
+Proof.
+  intros results baseline H. destruct (residual_spec results baseline H) as [H1 H2].
+  repeat split; [exact H1 | exact H2 | apply residual_inverse; exact H].
+Qed.
+Print Assumptions C05_baseline_plus_one.
